@@ -6,6 +6,7 @@ import Driver.Keys
 import Driver.Tcp
 import Driver.Usb
 import Driver.Spec
+import Driver.Monitor
 /-
   Model driver: one request per line on stdin, one reply line per request on stdout.
   The Python harness sends the same operations to the real implementation and diffs.
@@ -108,6 +109,7 @@ def step (st : DState) (line : String) : DState × String :=
   | "codec" :: rest => (st, stepCodec rest)
   | "store" :: rest => stepStore st rest
   | "spec" :: rest => (st, stepSpec rest)
+  | "monitor" :: rest => (st, stepMonitor rest)
   | "usb" :: rest => let (u', out) := stepUsb st.usb rest; ({ st with usb := u' }, out)
   | "tcp" :: rest => (st, stepTcp rest)
   | "keys" :: rest => (st, stepKeys rest)
